@@ -62,6 +62,29 @@ pub fn inputs(thorough: bool) -> Vec<Input> {
             v.push(Input { key: format!("lead|{}", esc(&p)), src: format!("{p}@compute @workgroup_size(1) fn main() {{}}") });
         }
     }
+    // the same payloads inside longer, multi-line sources (any width- or size-dependent treatment of the literal:
+    // line splitting, chunking, thresholds): ~160 characters for every payload, ~5 KB and ~70 KB for single characters
+    // and the core pairs. The payload appears mid-line, at a line start and at the very end.
+    let filler = |n: usize| -> String {
+        let line = "fn helper_NNN(x: f32) -> f32 { return x * 2.0 + 1.0; } // filler\n";
+        let mut t = String::new();
+        let mut k = 0;
+        while t.len() < n {
+            t.push_str(&line.replace("NNN", &k.to_string()));
+            k += 1;
+        }
+        t
+    };
+    let core: Vec<char> = core_alphabet();
+    for p in payloads(thorough) {
+        let n = p.chars().count();
+        let is_core = n <= 1 || (n == 2 && p.chars().all(|c| core.contains(&c)));
+        let sizes: &[usize] = if is_core { &[160, 5_000, 70_000] } else if n == 2 || thorough { &[160] } else { &[] };
+        for &sz in sizes {
+            let f = filler(sz);
+            v.push(Input { key: format!("long|{sz}|{}", esc(&p)), src: format!("/* a{p}b */\n{f}/*{p}*/ @compute @workgroup_size(1) fn main() {{}}\n//{p}") });
+        }
+    }
     // long runs of multi-byte characters: whatever chunking the output path uses (pipe reads of 4 KiB / 64 KiB),
     // some character straddles a boundary; 4 leading offsets x 3 character widths
     for (cname, ch) in [("2byte", '\u{e9}'), ("3byte", '\u{20ac}'), ("4byte", '\u{1F980}')] {
@@ -110,7 +133,9 @@ pub fn run(tier: &str) -> i32 {
     // ---- embedded variant, formatter off and on
     let res = par_map(&ins, |i| {
         let off = generate(&i.src, &Config::default());
-        let on = if matches!(off, Outcome::Ok(_)) { Some(generate(&i.src, &Config { rustfmt: true, ..Config::default() })) } else { None };
+        // formatter on: everything in thorough; in quick the long variants only at the smallest size
+        let with_fmt = thorough || !i.key.starts_with("long|") || i.key.starts_with("long|160|");
+        let on = if matches!(off, Outcome::Ok(_)) && with_fmt { Some(generate(&i.src, &Config { rustfmt: true, ..Config::default() })) } else { None };
         (off, on)
     });
     let mut compiled: Vec<(usize, String)> = vec![];
@@ -126,6 +151,9 @@ pub fn run(tier: &str) -> i32 {
         };
         rep.nontrivial.insert(hash64(&i.src));
         for (fmt, t) in [(false, Some(text)), (true, on.as_ref().and_then(|o| o.ok().map(|_| match o { Outcome::Ok(t) => t, _ => unreachable!() })))] {
+            if fmt && on.is_none() {
+                continue; // not attempted in this tier
+            }
             rep.evaluations += 1;
             let case = format!("{}|fmt={}", i.key, fmt as u8);
             let t = match t {
